@@ -227,3 +227,94 @@ Proof.
            eapply json_number_render_pos; [exact Hds|exact Hc|]. apply digits_of_Z_digits.
 Qed.
 Print Assumptions format_json_is_json_number.
+
+(* ------------------------------------------------------------------ *)
+(* Hnum_roundtrip for the numbers printed in positional notation        *)
+
+(* zero, or 1e-6 <= |x| < 1e21: encoding/json uses strconv's 'f' format *)
+Definition positional_range (x : float) : bool :=
+  match x with
+  | S754_zero _ => true
+  | S754_finite _ _ _ => negb (f_ltb (f_abs x) f_1e_6 || negb (f_ltb (f_abs x) f_1e21))
+  | _ => false
+  end.
+
+Theorem format_json_roundtrip_positional : forall x b,
+  positional_range x = true -> valid_binary prec emax x = true ->
+  format_json x = Some b -> parse_float b = PFok x.
+Proof.
+  intros x b Hr Hv H. destruct x as [s|s| |s m e]; try discriminate.
+  - cbn [format_json] in H. inversion H; subst b. now apply format_f_roundtrip.
+  - cbn [format_json] in H. cbn [positional_range] in Hr. apply negb_true_iff in Hr. rewrite Hr in H.
+    inversion H; subst b. now apply format_f_roundtrip.
+Qed.
+Print Assumptions format_json_roundtrip_positional.
+
+(* ------------------------------------------------------------------ *)
+(* The Json theorems with Hnum_syntax discharged                         *)
+
+Section WithRoundtrip.
+  (* the one remaining fact about Num/F64 (open for format_json's exponent notation) *)
+  Hypothesis Hnum_roundtrip : forall x b,
+    is_float64 x -> format_json x = Some b -> parse_float b = PFok x.
+
+  Let Hsyn : forall x b, is_float64 x -> format_json x = Some b -> json_number b = true :=
+    fun x b _ H => format_json_is_json_number x b H.
+
+  Theorem marshal_never_malformed_rt : forall v b, finite_numbers v -> marshal_indent v = Some b ->
+    exists v', decode_next b = DValue v' [].
+  Proof. exact (marshal_never_malformed Hsyn Hnum_roundtrip). Qed.
+
+  Theorem marshal_indent_decodes_rt : forall v b, finite_numbers v -> marshal_indent v = Some b ->
+    decode_next b = DValue (jnorm v) [].
+  Proof. exact (marshal_indent_decodes Hsyn Hnum_roundtrip). Qed.
+
+  Theorem marshal_roundtrip_rt : forall v b,
+    wf_jvalue v -> finite_numbers v -> valid_utf8_strings v -> marshal_indent v = Some b ->
+    exists v', decode_next b = DValue v' [] /\ jeq v v' = true.
+  Proof. exact (marshal_roundtrip Hsyn Hnum_roundtrip). Qed.
+
+  Theorem marshal_roundtrip_eq_rt : forall v b,
+    wf_jvalue v -> finite_numbers v -> valid_utf8_strings v -> marshal_indent v = Some b ->
+    decode_next b = DValue v [].
+  Proof. exact (marshal_roundtrip_eq Hsyn Hnum_roundtrip). Qed.
+End WithRoundtrip.
+
+(* ------------------------------------------------------------------ *)
+(* ... and with no hypothesis at all when every number is in the positional range *)
+
+Definition plain_float (x : float) : Prop := is_float64 x /\ positional_range x = true.
+Definition plain_numbers (v : jvalue) : Prop := nums_sat plain_float v.
+
+Lemma plain_syntax : forall x b, plain_float x -> format_json x = Some b -> json_number b = true.
+Proof. intros x b _ H. now apply format_json_is_json_number in H. Qed.
+
+Lemma plain_roundtrip : forall x b, plain_float x -> format_json x = Some b -> parse_float b = PFok x.
+Proof. intros x b [Hv Hr] H. now apply format_json_roundtrip_positional. Qed.
+
+Theorem marshal_indent_decodes_plain : forall v b, plain_numbers v -> marshal_indent v = Some b ->
+  decode_next b = DValue (jnorm v) [].
+Proof.
+  intros v b Hn H. unfold marshal_indent in H.
+  destruct (jdepth v <=? max_nesting_depth) eqn:E; [|discriminate]. apply N.leb_le in E.
+  exact (enc_decodes plain_float plain_syntax plain_roundtrip true v b H Hn E).
+Qed.
+
+Theorem marshal_never_malformed_plain : forall v b, plain_numbers v -> marshal_indent v = Some b ->
+  exists v', decode_next b = DValue v' [].
+Proof. intros v b Hn H. exists (jnorm v). now apply marshal_indent_decodes_plain. Qed.
+
+Theorem marshal_roundtrip_plain : forall v b,
+  wf_jvalue v -> plain_numbers v -> valid_utf8_strings v -> marshal_indent v = Some b ->
+  decode_next b = DValue v [] /\ jeq v v = true.
+Proof.
+  intros v b Hwf Hn Hvs H. split; [|apply jeq_refl].
+  rewrite (marshal_indent_decodes_plain v b Hn H). now rewrite jnorm_id.
+Qed.
+
+Print Assumptions marshal_never_malformed_rt.
+Print Assumptions marshal_roundtrip_rt.
+Print Assumptions marshal_roundtrip_eq_rt.
+Print Assumptions marshal_indent_decodes_plain.
+Print Assumptions marshal_never_malformed_plain.
+Print Assumptions marshal_roundtrip_plain.
